@@ -16,8 +16,10 @@ const WRITERS: &[(&str, &[&str])] = &[
     ("HSET", &["HSET", "K", "f2", "v"]), ("HSET-same", &["HSET", "K", "f", "1"]), ("HMSET", &["HMSET", "K", "f3", "v"]), ("HDEL", &["HDEL", "K", "f"]), ("HDEL-missing", &["HDEL", "K", "nofield"]), ("HINCRBY", &["HINCRBY", "K", "f", "2"]),
     ("ZADD", &["ZADD", "K", "5", "x"]), ("ZADD-rescore", &["ZADD", "K", "9", "a"]), ("ZREM", &["ZREM", "K", "a"]), ("ZREM-all", &["ZREM", "K", "a", "b"]), ("ZINCRBY", &["ZINCRBY", "K", "1", "a"]), ("ZPOPMIN", &["ZPOPMIN", "K"]), ("ZPOPMAX", &["ZPOPMAX", "K", "5"]),
     ("FLUSHDB", &["FLUSHDB"]), ("FLUSHALL", &["FLUSHALL"]),
+    ("XADD", &["XADD", "K", "*", "f", "v"]), ("XADD-explicit", &["XADD", "K", "5-5", "f", "v"]), ("XADD-refused", &["XADD", "K", "0-1", "f", "v"]), ("XDEL", &["XDEL", "K", "1-1"]), ("XDEL-missing", &["XDEL", "K", "9-9"]),
+    ("XTRIM", &["XTRIM", "K", "MAXLEN", "0"]), ("XTRIM-noop", &["XTRIM", "K", "MAXLEN", "100"]),
 ];
-const STATES: &[&str] = &["absent", "string", "list", "set", "hash", "zset", "string+ttl", "list+ttl"];
+const STATES: &[&str] = &["absent", "string", "list", "set", "hash", "zset", "string+ttl", "list+ttl", "stream"];
 const ROUTES: &[&str] = &["other-direct", "self-before-multi", "other-in-exec", "eval", "mirror-same-shard", "mirror-other-db", "unwatch-between", "exec-between", "discard-between", "same-turn"];
 
 fn shard_of(key: &[u8]) -> u64 { let mut h: u64 = 0xcbf29ce484222325; for b in key { h ^= *b as u64; h = h.wrapping_mul(0x100000001b3); } h % 16 }
@@ -29,6 +31,7 @@ fn create(state: &str, k: &str) -> Vec<Vec<B>> {
         "set" => vec![vec![b("SADD"), b(k), b("a"), b("b")]],
         "hash" => vec![vec![b("HSET"), b(k), b("f"), b("1")]],
         "zset" => vec![vec![b("ZADD"), b(k), b("1"), b("a"), b("2"), b("b")]],
+        "stream" => vec![vec![b("XADD"), b(k), b("1-1"), b("f"), b("v")], vec![b("XADD"), b(k), b("2-1"), b("f"), b("v")]],
         _ => vec![],
     };
     if state.ends_with("+ttl") { v.push(vec![b("EXPIRE"), b(k), b("1000")]); }
